@@ -219,9 +219,15 @@ func (r *Raft) onTakeSnapshot(t takeSnapshot) {
 		return
 	}
 	r.snapTakenCh = make(chan snapTaken, 1)
-	go func(index uint64, config Config) { // tracked by r.snapTakenCh
-		verifPoint("snapG.start", r, index)
-		meta, err := doTakeSnapshot(r.fsm, index, config)
+
+	// ask fsm for its state from raft goroutine itself: the request is then
+	// ordered after all apply requests sent so far, so fsm answers with
+	// commitIndex, and configs.Committed is the config in force at that index.
+	req := fsmSnapReq{task: newTask(), index: r.snaps.index + t.threshold}
+	r.fsm.ch <- req
+	go func(config Config) { // tracked by r.snapTakenCh
+		verifPoint("snapG.start", r, req.index)
+		meta, err := doTakeSnapshot(r.fsm, req, config)
 		if trace {
 			println(r, "doTakeSnapshot err:", err)
 		}
@@ -230,14 +236,12 @@ func (r *Raft) onTakeSnapshot(t takeSnapshot) {
 			meta: meta,
 			err:  err,
 		}
-	}(r.snaps.index+t.threshold, r.configs.Committed)
+	}(r.configs.Committed)
 }
 
-func doTakeSnapshot(fsm *stateMachine, index uint64, config Config) (snapshotMeta, error) {
+func doTakeSnapshot(fsm *stateMachine, req fsmSnapReq, config Config) (snapshotMeta, error) {
 	// get fsm state
-	req := fsmSnapReq{task: newTask(), index: index}
-	verifPoint("snapG.ask", fsm, index)
-	fsm.ch <- req
+	verifPoint("snapG.ask", fsm, req.index)
 	<-req.Done()
 	if req.Err() != nil {
 		return snapshotMeta{}, req.Err()
